@@ -44,6 +44,8 @@ POSITIONS = [
     ('nested-tuple-in-list', 'let r = [{f = [{I}]}];', 1), ('fail-message', 'let r = select ({I}.t, 0) => {true = fail "no " + {I}.m};', 2), ('not', 'let r = not {I}.t;', 1),
     ('trace', 'let r = TRACE {I}.a;', 1), ('convert', 'let r = convert flags {I};', 1), ('let-constraint', 'let r :: {I}.a = 2;', 1),
     ('call-in-binary-in-list', 'let f = func (x) => x; let r = [1 + f({I}.a)];', 1), ('copy-in-func-in-map', 'let t = {z = 0}; let r = map(func (x) => t{y = {I}.a}, [1]);', 1),
+    # expressions inside a format template are parsed when the format expression is compiled ({J} = {I} with its quotes escaped)
+    ('format-template-expr', 'let r = "@{({J}).a + item}" % 1;', 1), ('format-template-expr-in-func', 'let f = func (x) => "v=@{({J}).a + x}" % x; let r = f(1);', 1),
     ('double', 'let r = {I}.a + {I}.b;', 2), ('std-untouched', 'let r = import "std/lists.ucg";', 0),
 ]
 # names that merely *start like* the standard library prefix are ordinary relative paths
@@ -88,8 +90,10 @@ def harness_positions(ctx, case):
             out['sample'] = {'position': 'std-lookalike', 'path': rel, 'compiled_paths': hits}
         return out
     rel = REL if kind == 'import' else RELI
-    text = case['text'].replace('{I}', IMP if kind == 'import' else INC + '')
-    if kind == 'include':
+    text = case['text'].replace('{J}', '{I}').replace('{I}', IMP if kind == 'import' else INC + '')
+    if '{J}' in case['text']:
+        text = case['text'].replace('({J}).a', '(' + IMP.replace('"', '\\"') + ').a' if kind == 'import' else 'int(' + INC.replace('"', '\\"') + ')')
+    if kind == 'include' and '{J}' not in case['text']:
         # an include yields a string: adapt the member accesses of the templates
         text = case['text'].replace('{I}.a', 'int({I})').replace('{I}.b', 'int({I})').replace('{I}.t', '({I} == "1")').replace('{I}.k', '{I}') \
             .replace('{I}.m', '{I}').replace('{I}.l', '[{I}]').replace('{I}', INC)
